@@ -102,12 +102,27 @@ class deterministic_uuid:
         return False
 
 
+_RID_CACHE = {}
+
+
 def read_rids(abspath):
+    """the rid column of a parquet file, None if it cannot be read (cached on the file's bytes:
+    the writers are deterministic, so the many runs of C19 mostly see identical files)"""
+    import pyarrow as pa
     import pyarrow.parquet as pq
     try:
-        return pq.read_table(abspath, columns=['rid']).column('rid').to_pylist()
-    except Exception:
+        data = open(abspath, 'rb').read()
+    except OSError:
         return None
+    if data in _RID_CACHE:
+        return _RID_CACHE[data]
+    try:
+        out = pq.read_table(pa.BufferReader(data), columns=['rid']).column('rid').to_pylist()
+    except Exception:
+        out = None
+    if len(_RID_CACHE) < 5000:
+        _RID_CACHE[data] = out
+    return out
 
 
 def run_pack(root, df, cuts, k, mode, compression='snappy', overwrite=False, plan=None, K=None,
@@ -208,8 +223,11 @@ class Classifier:
     """content terms for the files of a tree after a run.  `cells` maps (i, N) to the rids
     written into that sub-part; `df` is the input frame (for the partition bounds)."""
 
-    def __init__(self, root, df, cells):
+    def __init__(self, root, df, cells, ref=None):
         self.root, self.df, self.cells = root, df, cells
+        # ref: {basename: (bytes, term)} of the metadata files of a reference (fault-free) run;
+        # a metadata file with the same bytes has the same content
+        self.ref = ref or {}
         self.rid2cell = {}
         self.ambiguous = False
         for c, rids in cells.items():
@@ -253,6 +271,8 @@ class Classifier:
             return C.Rec('COpaque', int(m.group(1)))
         if not data:
             return C.Rec('CPartial')
+        if base in self.ref and self.ref[base][0] == data:
+            return self.ref[base][1]
         if base == '_metadata':
             try:
                 md = pq.read_metadata(ap)
